@@ -509,6 +509,20 @@ Proof.
     + f_equal. exact Hst1.
 Qed.
 
+(* REFUSED ENTER.  The model treats a raising construct / enter as all-or-nothing (step = None: nothing happened);
+   the translator guarantees this reading by rejecting every source in which a raise (or a comparison that may raise)
+   follows an assignment on the same path.  Python does not run the block nor call __exit__ when __enter__ raised, so a
+   history with a refused enter is h1, the refused Enter i, h2: it restores everything like any well-nested history. *)
+Theorem refused_enter_generic h1 i h2 : bal h1 -> bal h2 -> forall g objs s1 s2,
+  wfobjs objs -> run h1 (g, objs) = Some s1 -> step s1 (Enter i) = None -> run h2 s1 = Some s2 ->
+  fst s2 = g /\ exists ext, snd s2 = objs ++ ext.
+Proof.
+  intros Hb1 Hb2 g objs [g1 o1] s2 Hwf Hr1 _ Hr2.
+  destruct (scoping_generic h1 Hb1 _ _ _ Hwf Hr1) as [Hg1 [ext1 [Ho1 Hw1]]]. simpl in Hg1, Ho1. subst g1 o1.
+  destruct (scoping_generic h2 Hb2 _ _ _ Hw1 Hr2) as [Hg2 [ext2 [Ho2 _]]].
+  split; [exact Hg2|]. exists (ext1 ++ ext2). rewrite Ho2. rewrite app_assoc. reflexivity.
+Qed.
+
 (* NO CROSS-TALK: an event on an object touches only the slots of the classes of its parts *)
 Theorem no_cross_talk_generic g objs e g' objs' c :
   step (g, objs) e = Some (g', objs') ->
